@@ -118,6 +118,16 @@ def judge(ev):
     """Judge the state reached after the step of ev (history or single step)."""
     if ev.obs.ro is None:
         return []
+    if ev.obs.exc is None and ev.obs.returned not in (None, 'the running order'):
+        # `ro += msg` rebinds the name: what comes back must be the running order itself
+        return [Failure(PROP, f'C14|{ev.obs.cls_name}|merge-hands-back-{ev.obs.returned}',
+                        f'`ro += {ev.obs.cls_name}` / msg.merge(ro) handed back {ev.obs.returned} instead of the '
+                        'running order: the caller is left without a running order to serialise',
+                        'the running order', ev.obs.returned)] + _judge_state(ev)
+    return _judge_state(ev)
+
+
+def _judge_state(ev):
     hist = ev.case.get('history')
     first = hist[0] if hist else ev.case['ro_xml']
     r0 = ET.fromstring(first)
